@@ -28,6 +28,9 @@ var c19Docs = []c19Doc{
 	{`{"a":["q","p"]}`, map[string]interface{}{"a": []interface{}{"q", "p"}}},
 	{`{"a":["s","p","r"],"b":{"c":[{"k":"1"},{"k":"2"}]}}`, map[string]interface{}{"a": []interface{}{"s", "p", "r"}, "b": map[string]interface{}{"c": []interface{}{map[string]interface{}{"k": "1"}, map[string]interface{}{"k": "2"}}}}},
 	{`{"a":["r","s","p"],"b":{"c":[{"k":"2"},{"k":"1"}]}}`, map[string]interface{}{"a": []interface{}{"r", "s", "p"}, "b": map[string]interface{}{"c": []interface{}{map[string]interface{}{"k": "2"}, map[string]interface{}{"k": "1"}}}}},
+	// two changed array elements with unchanged ones between them (against documents 4, 11, 12)
+	{`{"a":["x","r","y"]}`, map[string]interface{}{"a": []interface{}{"x", "r", "y"}}},
+	{`{"a":["s","P","r"],"b":{"c":[{"k":"9"},{"k":"2"},{"k":"8"}]}}`, map[string]interface{}{"a": []interface{}{"s", "P", "r"}, "b": map[string]interface{}{"c": []interface{}{map[string]interface{}{"k": "9"}, map[string]interface{}{"k": "2"}, map[string]interface{}{"k": "8"}}}}},
 	{`{"a~1b":"tilde-one","a/b":"slash","c~0d":{"e~01f":"deep"}}`, map[string]interface{}{"a~1b": "tilde-one", "a/b": "slash", "c~0d": map[string]interface{}{"e~01f": "deep"}}},
 }
 
@@ -46,7 +49,7 @@ func VF_C19_Patch() {
 	src := vf.Choice("source", c19Range())
 	tgt := vf.Choice("target", c19Range())
 	vf.Tag("_pair", string(rune('a'+src))+">"+string(rune('a'+tgt)))
-	esc := src >= 8 && src != 10 && src != 11 && src != 12 || tgt >= 8 && tgt != 10 && tgt != 11 && tgt != 12
+	esc := src >= 8 && (src < 10 || src > 14) || tgt >= 8 && (tgt < 10 || tgt > 14)
 	vf.Tag("escaped-keys", esc)
 	// build the source through the same API (a patch from the empty document)
 	if src != 0 {
